@@ -69,6 +69,25 @@ def mk_add(l, r):
     return out
 
 
+def mk_index(base, idx):
+    """base[idx]; x[a:][k] is x[a+k] for non-negative constants."""
+    if base[0] == "slice" and base[3] is None and idx[0] == "const" \
+            and isinstance(idx[1], int) and idx[1] >= 0 \
+            and base[2] is not None and base[2][0] == "const" \
+            and isinstance(base[2][1], int) and base[2][1] >= 0:
+        return ("index", base[1], ("const", base[2][1] + idx[1]))
+    if base[0] == "binop" and base[1] == "Add" and idx[0] == "const" \
+            and isinstance(idx[1], int) and idx[1] >= 0:
+        first = _add_parts(base)[0]
+        if first[0] == "slice" and first[2] is None and first[3] is not None \
+                and first[3][0] == "const" and isinstance(first[3][1], int) \
+                and idx[1] < first[3][1]:
+            # (x[:h] + ...)[k] is x[k] for k < h (x at least h long, as the
+            # other spelling of the same update requires)
+            return ("index", first[1], idx)
+    return ("index", base, idx)
+
+
 def _percent_format(fmt_, arg):
     """'..%s..%r..' % arg as a concatenation (only %s, %r and %% specs)."""
     import re as _re
@@ -780,13 +799,19 @@ class Interp:
                     and base[0] not in ("tuple", "list", "dict"):
                 self.path.effects.append(("index-eval", base, idx,
                                           len(self.path.order), node))
+            if base[0] == "slice" and base[3] is None and is_const(idx) \
+                    and isinstance(idx[1], int) and idx[1] >= 0 \
+                    and base[2] is not None and is_const(base[2]) \
+                    and isinstance(base[2][1], int) and base[2][1] >= 0:
+                # x[a:][k] is x[a+k]
+                return ("index", base[1], const(base[2][1] + idx[1]))
             if base[0] in ("tuple", "list") and is_const(idx) \
                     and isinstance(idx[1], int):
                 try:
                     return base[1][idx[1]]
                 except IndexError:
                     raise _Raise("builtins.IndexError", ())
-            return ("index", base, idx)
+            return mk_index(base, idx)
         if isinstance(node, ast.BinOp):
             l = self.eval(node.left, env)
             r = self.eval(node.right, env)
@@ -1034,6 +1059,19 @@ class Interp:
                 "builtins.sorted"
             env[f.value.id] = ("call", ("global", fn), (env[f.value.id],), ())
             return const(None)
+        if ft[0] == "attr" and ft[2] == "insert" and len(args) == 2 \
+                and not kws and isinstance(f, ast.Attribute) \
+                and isinstance(f.value, ast.Name) and f.value.id in env \
+                and env[f.value.id][0] in ("copyof", "call", "binop") \
+                and is_const(args[0]) and isinstance(args[0][1], int) \
+                and args[0][1] >= 0:
+            # inserting into a local copy == rebinding it to the spliced list
+            x = env[f.value.id]
+            i = args[0]
+            env[f.value.id] = mk_add(mk_add(
+                ("slice", x, None, i), ("list", (args[1],))),
+                ("slice", x, i, None))
+            return const(None)
         # no-return summaries: a call all of whose resolved callees always
         # raise is a raise
         callees = self.P.resolve_call(fi, node) if self.depth == 0 or True \
@@ -1090,6 +1128,9 @@ class Interp:
         if ft == ("global", "builtins.str") and len(args) == 1 \
                 and is_const(args[0]) and isinstance(args[0][1], str):
             return args[0]
+        if ft == ("global", "builtins.int") and len(args) == 1 and not kws \
+                and is_const(args[0]) and isinstance(args[0][1], (bool, int)):
+            return const(int(args[0][1]))
         return t
 
     def _is_exception_class(self, qual):
@@ -1167,7 +1208,7 @@ class Interp:
                     self.assign(t, v, env, node)
             else:
                 for i, t in enumerate(tgt.elts):
-                    self.assign(t, ("index", val, const(i)), env, node)
+                    self.assign(t, mk_index(val, const(i)), env, node)
         elif isinstance(tgt, ast.Attribute):
             base = self.eval(tgt.value, env)
             self.path.effects.append(("store", ("attr", base, tgt.attr), val,
